@@ -55,6 +55,7 @@ def run(chk, repo):
     directions(chk, repo)
     addressed(chk, repo)
     no_give_up(chk, repo)
+    datasize_exact(chk, repo)
     from . import c15
     chk.doc("R15.4", "the mailbox counter survives a failed exchange "
                      "(shared with C15)")
@@ -542,6 +543,39 @@ def object_entries(chk, repo):
            "their little-endian struct encoding (11 types / bit lengths by "
            "abstract execution)", not bad, wr, "; ".join(bad[:2]) or
            "value -> pack('<'+fmt) -> sdo_write; sdo_read -> unpack")
+
+
+def datasize_exact(chk, repo):
+    """the length word of a mailbox message is computed by datasize(): the
+    packed size of the formats plus the number of raw bytes, exactly (by
+    abstract execution; odd lengths included - a length rounded up makes
+    the terminal take a byte of stale mailbox memory for the last byte of
+    the value)"""
+    f = repo.func("ebpfcat.ethercat.datasize")
+    chk.analysed("ebpfcat.ethercat.datasize")
+    bad = []
+    n = 0
+    for args in ((), ("H",), ("HBHB4x",), ("HBHBI", 1, 2, 3, 4, 5),
+                 ("H", 7, "B"), ("B",), ("HB",), ("3s", b"abc")):
+        for data in (None, 0, 1, 2, 5, 11, 13, b"", b"x", b"xyz",
+                     b"0123456789a"):
+            n += 1
+            want = struct.calcsize("<" + "".join(
+                a for a in args if isinstance(a, str))) + (
+                data if isinstance(data, int) else
+                len(data) if data is not None else 0)
+            try:
+                got = Evaluator(repo, f._module).call_function(
+                    f, [args, data])
+            except (Unknown, Raised) as e:
+                raise AnalysisError(f"datasize: cannot be evaluated: {e}")
+            if got != want:
+                bad.append(f"datasize({args!r}, {data!r}) = {got!r}, the "
+                           f"message has {want} bytes")
+    chk.ob("R16.4", "ebpfcat.ethercat.datasize", f"the announced length is "
+           f"the number of bytes of the message ({n} cases by abstract "
+           f"execution)", not bad, f, "; ".join(bad[:2]) or
+           "calcsize('<' + formats) + raw bytes")
 
 
 def no_give_up(chk, repo):
